@@ -479,6 +479,9 @@ impl Check for C20 {
         }
         out
     }
+    fn exhaustive_note(&self, tier: Tier) -> Option<String> {
+        Some(format!("all operation sequences of length 1..={} over the 14-operation alphabet, starting from an empty file", if tier == Tier::Thorough { 5 } else { 4 }))
+    }
     fn execute(&self, case: &Value) -> Verdict {
         match serde_json::from_value::<Case>(case.clone()) {
             Ok(c) => judge(&c),
